@@ -241,6 +241,10 @@ pub struct Trace {
     pub sanitizer: Option<String>,
     #[serde(default, skip_serializing_if = "Option::is_none")]
     pub tier: Option<String>,
+    /// build variant that found the violation: "checked" (overflow checks + debug assertions) or
+    /// "userlike" (a plain release build); the replay runs in the same variant
+    #[serde(default, skip_serializing_if = "Option::is_none")]
+    pub build: Option<String>,
 }
 
 pub fn fmt_op(op: &Op) -> String {
